@@ -380,6 +380,12 @@ func evGenContent(t *rapid.T, version, typ string) jv {
 	if typ == "m.room.member" && rapid.IntRange(0, 2).Draw(t, "tpi") == 0 {
 		c = c.with("third_party_invite", evGenContentValue(t, version, "third_party_invite"))
 	}
+	if rapid.IntRange(0, 11).Draw(t, "backslashText") == 0 {
+		// TEXT that reads like an escape: a backslash followed by u and four hex digits is, on the
+		// wire, an escaped backslash and six ordinary characters — not an escape of anything
+		c = c.with(rapid.SampledFrom([]string{"body", "path", `k\ud83d`}).Draw(t, "backslashKey"),
+			jstr(rapid.SampledFrom([]string{`C:\docs\udd12`, `the escape \ud83d\ude00 is a smiley`, `\udead`, `\\ud800`, `x\u0041\udc00`, `\ud83d`}).Draw(t, "backslashVal")))
+	}
 	if names, ok := evRuleContentKeys[typ]; ok && rapid.IntRange(0, 9).Draw(t, "lookAlike") == 0 {
 		// a key that differs from one the rules read for this type only in letter case: Build and the
 		// untrusted parsers must agree about it (both refuse), whatever the state key
